@@ -400,15 +400,15 @@ impl PackageBuilder {
                     path: dest.clone(),
                     desc: "invalid start, expected / or ./",
                 })?;
-            (
-                dest.to_string(),
-                format!("/{}/", parent.to_string_lossy()),
-            )
+            (dest.to_string(), format!("/{}", parent.to_string_lossy()))
         } else {
-            (
-                format!(".{}", dest),
-                format!("{}/", parent.to_string_lossy()),
-            )
+            (format!(".{}", dest), parent.to_string_lossy().to_string())
+        };
+        // directory names end with exactly one '/' (the root directory is just "/")
+        let dir = if dir.ends_with('/') {
+            dir
+        } else {
+            format!("{}/", dir)
         };
 
         let mut hasher = sha2::Sha256::default();
